@@ -157,7 +157,7 @@ pub fn cfg_for(rng: &mut StdRng, thorough: bool, faults: u32) -> ProgCfg {
 /// `lc3v emit asm [n=..] [faults=pct] [os=1]`: generated programs through the real parser + assembler.
 pub fn emit_asm(a: &Args, out: &mut Out) {
     let mut rng = rng_for(a, 0xA53);
-    let n = a.get_u64("n", if a.thorough() { 3000 } else { 260 });
+    let n = a.get_u64("n", if a.thorough() { 4000 } else { 450 });
     let faults = a.get_u64("faults", 50) as u32;
     let mut run = 0u64;
     if a.get_u64("os", 1) == 1 {
@@ -396,7 +396,7 @@ fn tree_text(t: &Tree) -> String { match t { Tree::Leaf(i) => format!("{}", i + 
 
 pub fn emit_link(a: &Args, out: &mut Out) {
     let mut rng = rng_for(a, 0x11C);
-    let n = a.get_u64("n", if a.thorough() { 600 } else { 60 });
+    let n = a.get_u64("n", if a.thorough() { 1500 } else { 150 });
     let mut run = 0u64;
     let mut made = 0u64;
     while made < n && run < n * 4 {
